@@ -58,6 +58,10 @@ pub enum CEv {
     Connect(Kind),
     /// close the i-th connection (by creation order) that the client still has open
     Close(usize),
+    /// abort it (RST instead of FIN; SO_LINGER 0): a connection that is still waiting in the
+    /// backlog is later accepted as a dead socket (getpeername fails on it, reads fail after the
+    /// bytes received before the reset)
+    Reset(usize),
 }
 
 #[derive(Clone, Debug)]
@@ -66,6 +70,22 @@ struct MConn {
     client_open: bool,
     accepted: bool,
     server_done: bool,
+    /// reset by the client while still in the backlog (the server later accepts a dead socket; what
+    /// the client had sent before is still readable from it)
+    reset_before_accept: bool,
+}
+
+fn model_apply(conns: &mut Vec<MConn>, e: CEv) {
+    match e {
+        CEv::Connect(k) => conns.push(MConn { kind: k, client_open: true, accepted: false, server_done: false, reset_before_accept: false }),
+        CEv::Close(i) | CEv::Reset(i) => {
+            let idx = conns.iter().enumerate().filter(|(_, c)| c.client_open).map(|(j, _)| j).nth(i).unwrap();
+            conns[idx].client_open = false;
+            if matches!(e, CEv::Reset(_)) && !conns[idx].accepted {
+                conns[idx].reset_before_accept = true;
+            }
+        }
+    }
 }
 
 /// Reference model of the accept loop: FIFO accept whenever fewer than N handlers are alive.
@@ -109,6 +129,19 @@ fn c15_enabled(conns: &[MConn], n: usize, max_conns: usize) -> Vec<CEv> {
     for i in 0..open {
         v.push(CEv::Close(i));
     }
+    // resets: of connections that still wait in the backlog (the case that differs from a close
+    // for the server: a dead socket comes out of accept), and of the oldest open connection
+    let mut j = 0;
+    for c in conns.iter() {
+        if c.client_open {
+            // (not for a connection whose accept is to be failed: the injection recognises it by
+            // its peer address, which a dead socket no longer has)
+            if (!c.accepted || j == 0) && c.kind != Kind::Aborted {
+                v.push(CEv::Reset(j));
+            }
+            j += 1;
+        }
+    }
     v
 }
 
@@ -125,13 +158,7 @@ pub fn c15_words(n: usize, len: usize, max_conns: usize) -> Vec<Vec<CEv>> {
         }
         for e in en {
             let saved = conns.clone();
-            match e {
-                CEv::Connect(k) => conns.push(MConn { kind: k, client_open: true, accepted: false, server_done: false }),
-                CEv::Close(i) => {
-                    let idx = conns.iter().enumerate().filter(|(_, c)| c.client_open).map(|(j, _)| j).nth(i).unwrap();
-                    conns[idx].client_open = false;
-                }
-            }
+            model_apply(conns, e);
             settle(conns, n);
             cur.push(e);
             rec(conns, n, len, max_conns, cur, out);
@@ -165,7 +192,7 @@ pub fn c15_case(dir: &Path, n: usize, word: &[CEv]) -> Result<String, V> {
             match *ev {
                 CEv::Connect(kind) => {
                     let mut s = if kind == Kind::Aborted { srv.connect_to_be_aborted() } else { srv.connect() }.map_err(|e| mach(format!("connect: {}", e)))?;
-                    model.push(MConn { kind, client_open: true, accepted: false, server_done: false });
+                    model_apply(&mut model, *ev);
                     match kind {
                         Kind::Get => s.write_all(&get).map_err(|e| mach(e.to_string()))?,
                         Kind::Aborted => {
@@ -187,10 +214,17 @@ pub fn c15_case(dir: &Path, n: usize, word: &[CEv]) -> Result<String, V> {
                     }
                     cl.push(CConn { sock: Some(s), got_reply: false, saw_end: false, bytes: vec![] });
                 }
-                CEv::Close(i) => {
+                CEv::Close(i) | CEv::Reset(i) => {
                     let idx = model.iter().enumerate().filter(|(_, c)| c.client_open).map(|(j, _)| j).nth(i).unwrap();
-                    model[idx].client_open = false;
+                    model_apply(&mut model, *ev);
                     if let Some(s) = cl[idx].sock.take() {
+                        if matches!(*ev, CEv::Reset(_)) {
+                            use std::os::unix::io::AsRawFd;
+                            let lg = libc::linger { l_onoff: 1, l_linger: 0 };
+                            unsafe {
+                                libc::setsockopt(s.as_raw_fd(), libc::SOL_SOCKET, libc::SO_LINGER, &lg as *const _ as *const libc::c_void, std::mem::size_of::<libc::linger>() as u32);
+                            }
+                        }
                         drop(s);
                     }
                 }
@@ -285,6 +319,7 @@ fn check_c15_state(srv: &Srv, model: &[MConn], cl: &mut [CConn], e0: u64, n: usi
         }
     }
     // the number of GETs that reached the store equals the number of accepted GET connections
+    // (a request that was received before the reset is still read from the dead socket and executed)
     let want = model.iter().filter(|c| c.accepted && c.kind == Kind::Get).count();
     if !srv.gate.wait_arrivals(want, T20) {
         return Err(("served-connection-not-answered".into(), ctx(&format!("{} commands reached the store within 6 s, the accept model says {}", srv.gate.n_ops(), want))));
@@ -324,15 +359,9 @@ pub fn c15(job: &Job, sh: &mut Shard, t0: Instant) {
             // model states along the word
             let mut m: Vec<MConn> = vec![];
             for e in w {
-                match *e {
-                    CEv::Connect(k) => m.push(MConn { kind: k, client_open: true, accepted: false, server_done: false }),
-                    CEv::Close(j) => {
-                        let idx = m.iter().enumerate().filter(|(_, c)| c.client_open).map(|(x, _)| x).nth(j).unwrap();
-                        m[idx].client_open = false;
-                    }
-                }
+                model_apply(&mut m, *e);
                 settle(&mut m, n);
-                sh.states.insert(fnv(format!("{}|{:?}", n, m.iter().map(|c| (c.kind, c.client_open, c.accepted, c.server_done)).collect::<Vec<_>>()).as_bytes()));
+                sh.states.insert(fnv(format!("{}|{:?}", n, m.iter().map(|c| (c.kind, c.client_open, c.accepted, c.server_done, c.reset_before_accept)).collect::<Vec<_>>()).as_bytes()));
             }
             sh.nontrivial.insert(fnv(format!("{}{:?}", n, w).as_bytes()));
             *sh.counters.entry(format!("words:N={},len={}", n, len)).or_insert(0) += 1;
@@ -366,6 +395,9 @@ fn parse_cev(s: &str) -> Option<CEv> {
     }
     if let Some(r) = s.strip_prefix("Close(") {
         return r.trim_end_matches(')').parse().ok().map(CEv::Close);
+    }
+    if let Some(r) = s.strip_prefix("Reset(") {
+        return r.trim_end_matches(')').parse().ok().map(CEv::Reset);
     }
     None
 }
@@ -852,6 +884,12 @@ pub fn c16_case(dir: &Path, states: &[CState], order: &[usize]) -> Result<String
         if !srv.quiesce(e0) {
             return Err(mach("no quiescence after the shutdown signal"));
         }
+        // a client that arrives after the signal: the server has stopped, it is never served
+        let mut late: Option<TcpStream> = srv.connect().ok();
+        if let Some(l) = late.as_mut() {
+            let _ = l.write_all(&Req::Set(b"late".to_vec(), b"val".to_vec()).encode());
+            srv.quiesce(srv.epoch());
+        }
         let busy = |held_op: &Vec<Option<usize>>, next_ev: &Vec<usize>| states.iter().enumerate().any(|(c, st)| next_ev[c] < pending_events(st).len() && (held_op[c].is_some() || *st == CState::ReplyStalled));
         let _ = &was_reset;
         // while a command is in flight, run() must not have returned and its client must not see a reply or a close
@@ -982,6 +1020,15 @@ pub fn c16_case(dir: &Path, states: &[CState], order: &[usize]) -> Result<String
         // everything is released: run() must return
         if !srv.wait_returned(T20) {
             return Err(("run-does-not-return".into(), format!("run() did not return within 6 s after the shutdown signal; states {:?}", states)));
+        }
+        if let Some(mut l) = late.take() {
+            let (b, how) = read_to_end(&mut l, T20);
+            if !b.is_empty() || how == "timeout" {
+                return Err(("served-a-connection-that-arrived-after-the-signal".into(), format!("a client that connected after the shutdown signal received {:?} ({})", String::from_utf8_lossy(&b), how)));
+            }
+            if srv.handle.get(Bytes::from_static(b"late")).map_err(|e| mach(e.to_string()))?.is_some() {
+                return Err(("served-a-connection-that-arrived-after-the-signal".into(), "the SET of a client that connected after the shutdown signal was applied".into()));
+            }
         }
         // every client's stream: complete replies followed by end-of-stream
         let mut summary = vec![];
